@@ -168,7 +168,7 @@ impl Monitor {
                 }
                 Self::bump(&mut self.validations_per_tx, *txid);
             }
-            Event::Rewind { index, ts } => {
+            Event::Rewind { index, ts, .. } => {
                 self.probes.rewinds += 1;
                 self.rewinds.push((*index, *ts));
             }
